@@ -116,6 +116,38 @@ class CallableInstance:
 callable_instance = CallableInstance('ci')
 
 
+@dataclasses.dataclass(slots=True)
+class SlotCallA:
+  """Callable instances that are neither hashable (dataclass eq) nor weak-referenceable
+  (__slots__): a cache keyed by id() cannot learn that they died."""
+  label: str
+
+  def __call__(self, a, b=2, *va):
+    d = dict(locals())
+    d.pop('self')
+    return _r.rec('SlotCallA', d)
+
+
+@dataclasses.dataclass(slots=True)
+class SlotCallB:
+  label: str
+
+  def __call__(self, x, /, y='Y', *, k=None):
+    d = dict(locals())
+    d.pop('self')
+    return _r.rec('SlotCallB', d)
+
+
+@dataclasses.dataclass(slots=True)
+class SlotCallC:
+  label: str
+
+  def __call__(self, b=5, a=6, **vk):
+    d = dict(locals())
+    d.pop('self')
+    return _r.rec('SlotCallC', d)
+
+
 class Meth:
   """Instance methods: `Meth.apply` (plain function, self is the first positional parameter)
   and `meth_instance.apply` (bound method, self stripped) share one __func__ but have
